@@ -25,7 +25,9 @@ _ENVS = {}
 TC_SETS = {0: [(0x11, 100), (0x16, 101), (0x1B, 102)],
            1: [(0x2A, 21), (0x2A, 21 + 1024), (0x2A, 21 + 8192)],
            2: [(0x12A, 7), (0x52A, 7), (0x12A, 7 + 256)],
-           3: [(0x7FF, 0x3FFF), (0x3FF, 0x3FFF), (0x7FF, 0x1FFF)]}
+           3: [(0x7FF, 0x3FFF), (0x3FF, 0x3FFF), (0x7FF, 0x1FFF)],
+           # same APID and sequence count, different segmentation flags (third element; headers built through from_composite_fields)
+           4: [(0x2A, 21, 0), (0x2A, 21, 1), (0x2A, 21, 3)]}
 CUR_SET = 0
 CUR_ROUTE = "ctor"
 REPORT_ROUTES = ("ctor", "unpacked", "from_tm")      # how the report objects handed to add_tm came into being
@@ -44,7 +46,14 @@ def env(set_id=None, route=None):
     from spacepackets.ecss.pus_1_verification import Service1Tm, Subservice, VerificationParams, FailureNotice
     from spacepackets.ecss.req_id import RequestId
     from spacepackets.ecss.fields import PacketFieldEnum
-    tcs = [PusTc(service=17, subservice=1, apid=a, seq_count=c) for a, c in TC_SETS[set_id]]
+    def mk_tc(spec):
+        if len(spec) == 2:
+            return PusTc(service=17, subservice=1, apid=spec[0], seq_count=spec[1])
+        from spacepackets.ccsds.spacepacket import SpacePacketHeader, PacketType, SequenceFlags
+        from spacepackets.ecss.tc import PusTcDataFieldHeader
+        h = SpacePacketHeader(PacketType.TC, spec[0], spec[1], 6, True, SequenceFlags(spec[2]))
+        return PusTc.from_composite_fields(h, PusTcDataFieldHeader(17, 1), b"")
+    tcs = [mk_tc(spec) for spec in TC_SETS[set_id]]
     rids = [RequestId.from_pus_tc(t) for t in tcs]
     keys = [r.as_u32() for r in rids]
     letters = []
@@ -68,7 +77,7 @@ def env(set_id=None, route=None):
         letters.append(("remove_entry", t))
     letters.append(("remove_completed",))
     from spverif.ref import pus as _P
-    keys_model = [int.from_bytes(_P.request_id(0, 1, 1, a, 3, c), "big") for a, c in TC_SETS[set_id]]
+    keys_model = [int.from_bytes(_P.request_id(0, 1, 1, spec[0], spec[2] if len(spec) > 2 else 3, spec[1]), "big") for spec in TC_SETS[set_id]]
     assert len(set(keys_model)) == N_TC
     _ENVS[(set_id, route)] = dict(PusVerificator=PusVerificator, tcs=tcs, rids=rids, keys=keys_model, letters=letters, StatusField=StatusField)
     return _ENVS[(set_id, route)]
@@ -243,7 +252,7 @@ def run(ctx):
                 k_history(ctx, hist)
     ctx.exhaustive.append(f"all histories of length 1..{depth} over the 37-letter alphabet ({sum(37 ** d for d in range(1, depth + 1))} histories)")
     # the sets of nearly identical request ids: all histories to depth 2 (thorough: 3), then random ones
-    for ts in (1, 2, 3):
+    for ts in (1, 2, 3, 4):
         for d in range(1, (2 if ctx.quick else 3) + 1):
             i = 0
             for hist in itertools.product(range(n), repeat=d):
@@ -264,7 +273,7 @@ def run(ctx):
     weights = [4 if L[0] == "add_tc" else 1 for L in E["letters"]]
     for j in range(ctx.n(800, 80_000)):
         ln = r.randrange(20, 201)
-        k_history(ctx, r.choices(range(n), weights=weights, k=ln), j % 4, REPORT_ROUTES[(j // 4) % 3])
+        k_history(ctx, r.choices(range(n), weights=weights, k=ln), j % 5, REPORT_ROUTES[(j // 5) % 3])
     ctx.extra["transitions_list"] = sorted([list(a), b] for a, b in COVER["transitions"])
     ctx.extra["abstract_state_space"] = {"states": 162, "transitions": 162 * 8}
     ctx.extra["states_list"] = sorted(list(s) for s in COVER["states"])
